@@ -50,6 +50,8 @@ Lemma sbal_aset : forall s st mb ma k v x,
   st = aset k v (store s) -> sbal (set_store s st mb ma) x = if x =? k then v else sbal s x.
 Proof. intros; subst. unfold sbal. cbn [set_store store]. rewrite alookup_aset. destruct (x =? k); reflexivity. Qed.
 
+Ltac triv := cbn [fst snd deposits_of withdrawals_of amt_for]; lia.
+
 Lemma conserve_step : forall B s o a, Inv B s -> wf_op o -> B + att o < two128 ->
   sbal (fst (step s o)) a + amt_for a (withdrawals_of s o (snd (step s o)))
   = sbal s a + amt_for a (deposits_of o (snd (step s o))).
@@ -58,13 +60,13 @@ Proof.
     try (cbn [step fst snd deposits_of withdrawals_of amt_for]; lia).
   - (* SetMax *) unfold sbal. cbn [step fst snd set_max store deposits_of withdrawals_of amt_for]. lia.
   - (* Credit *)
-    cbn [step]. destruct expired; [cbn [fst snd deposits_of withdrawals_of amt_for]; lia|].
+    cbn [step]. destruct expired; [triv|].
     unfold finish, bind.
     rewrite cadd_ok by (pose proof (get_balance_le a I); lia).
-    destruct (negb refund && (maxbal s <? get_balance s a + amt)); [cbn [fst snd deposits_of withdrawals_of amt_for]; lia|].
+    destruct (negb refund && (maxbal s <? get_balance s a + amt)); [triv|].
     unfold store_credit, bind. rewrite cadd_ok by (pose proof (sbal_le a I); lia).
     rewrite stat_add_ok by (rewrite (inv_metric I); pose proof (inv_bound I); lia).
-    destruct cok; [|cbn [fst snd deposits_of withdrawals_of amt_for]; lia].
+    destruct cok; [|triv].
     cbn [fst snd deposits_of withdrawals_of amt_for].
     match goal with |- sbal ?S x + _ = _ => assert (E : sbal S x = if x =? a then sbal s a + amt else sbal s x) end.
     { cbn [set_store mem]. destruct (alookup a (mem s)); unfold sbal; cbn [set_mem set_store store];
@@ -75,16 +77,16 @@ Proof.
     cbn [step]. unfold finish, bind.
     destruct (alookup a (mem s)) as [e|].
     + destruct (mbal e <? amt); cbn [fst snd deposits_of withdrawals_of amt_for]; [lia | unfold sbal; cbn; lia].
-    + destruct rok; [|cbn [fst snd deposits_of withdrawals_of amt_for]; lia]. cbn [mbal].
+    + destruct rok; [|triv]. cbn [mbal].
       destruct (sbal s a <? amt); cbn [fst snd deposits_of withdrawals_of amt_for]; [lia | unfold sbal; cbn; lia].
   - (* Spend *)
-    cbn [step]. destruct (nth_error (budgets s) b) as [bd|]; [|cbn [fst snd deposits_of withdrawals_of amt_for]; lia].
-    unfold finish, bind. destruct (uadd (busage bd) u) as [nu| |]; try (cbn [fst snd deposits_of withdrawals_of amt_for]; lia).
-    destruct (utotal nu) as [sp| |]; try (cbn [fst snd deposits_of withdrawals_of amt_for]; lia).
+    cbn [step]. destruct (nth_error (budgets s) b) as [bd|]; [|triv].
+    unfold finish, bind. destruct (uadd (busage bd) u) as [nu| |]; try triv.
+    destruct (utotal nu) as [sp| |]; try triv.
     destruct (bmax bd <? sp); cbn [fst snd deposits_of withdrawals_of amt_for]; [lia | unfold sbal; cbn; lia].
   - (* Refund *)
-    cbn [step]. destruct (nth_error (budgets s) b) as [bd|]; [|cbn [fst snd deposits_of withdrawals_of amt_for]; lia].
-    destruct (bdone bd); [cbn [fst snd deposits_of withdrawals_of amt_for]; lia|].
+    cbn [step]. destruct (nth_error (budgets s) b) as [bd|]; [|triv].
+    destruct (bdone bd); [triv|].
     unfold finish, bind. destruct (usub (busage bd) u) as [nu| |]; cbn [fst snd deposits_of withdrawals_of amt_for]; try lia.
     unfold sbal; cbn; lia.
   - (* Commit *)
@@ -95,28 +97,28 @@ Proof.
     destruct sok; [|cbn [step]; rewrite Hn, Hd; cbn [negb fst snd deposits_of withdrawals_of amt_for]; lia].
     destruct (@open_cached B s b bd I Hn Hd) as [e He].
     destruct (commit_spec b I HB Hn Hd He) as [Ht [[E _]|(Hnn&Hle&Hs&_&Hst&_)]].
-    + rewrite E. cbn [fst snd deposits_of withdrawals_of amt_for]. lia.
+    + rewrite E. triv.
     + unfold withdrawals_of. rewrite Hs, Hn, Hd. cbn [deposits_of amt_for].
       unfold sbal at 1. rewrite Hst, alookup_aset.
       destruct (x =? bacct bd) eqn:E1; destruct (bacct bd =? x) eqn:E2; try lia.
       * apply N.eqb_eq in E1; subst x. lia.
       * fold (sbal s x). lia.
   - (* Rollback *)
-    cbn [step]. destruct (nth_error (budgets s) b) as [bd|]; [|cbn [fst snd deposits_of withdrawals_of amt_for]; lia].
-    destruct (bdone bd); [cbn [fst snd deposits_of withdrawals_of amt_for]; lia|].
-    destruct (alookup (bacct bd) (mem s)); [|cbn [fst snd deposits_of withdrawals_of amt_for]; lia].
+    cbn [step]. destruct (nth_error (budgets s) b) as [bd|]; [|triv].
+    destruct (bdone bd); [triv|].
+    destruct (alookup (bacct bd) (mem s)); [|triv].
     cbn [deposits_of withdrawals_of amt_for]. unfold sbal. rewrite release_store. cbn [set_budgets store]. lia.
   - (* R4Credit *)
     cbn [wf_op] in W. cbn [step]. unfold finish, bind, store_r4credit, bind.
-    destruct cok; cbn [negb]; [|cbn [fst snd deposits_of withdrawals_of amt_for]; lia].
+    destruct cok; cbn [negb]; [|triv].
     pose proof (inv_bound I) as Hb.
     destruct (@r4_deposits_ok deps (store s) 0 [] ltac:(lia)) as (st'&c'&bals'&E&H1&H2&H3).
     rewrite E. rewrite stat_add_ok by (rewrite (inv_metric I); lia).
     cbn [fst snd deposits_of withdrawals_of amt_for]. rewrite !sbal_getv. cbn [set_store store]. rewrite H3. lia.
   - (* R4Debit *)
     cbn [step]. unfold finish, bind, store_r4debit, bind.
-    destruct (alookup a (store s)) as [bal|] eqn:L; [|cbn [fst snd deposits_of withdrawals_of amt_for]; lia].
-    destruct (bal <? amt) eqn:C; [cbn [fst snd deposits_of withdrawals_of amt_for]; lia|].
+    destruct (alookup a (store s)) as [bal|] eqn:L; [|triv].
+    destruct (bal <? amt) eqn:C; [triv|].
     pose proof (getv_le_asum a (store s)) as Hle. unfold getv in Hle. rewrite L in Hle.
     rewrite stat_sub_ok by (rewrite (inv_metric I); lia).
     cbn [fst snd deposits_of withdrawals_of amt_for].
@@ -207,6 +209,8 @@ Qed.
 Lemma Kr_weaken : forall s, Kr true s -> Kr false s.
 Proof. intros s K a e L. specialize (K a e L). cbn in *. lia. Qed.
 
+Ltac kr r := destruct r; cbn beta iota in *; lia.
+
 Lemma Kr_step : forall r B s o, Inv B s -> Kr r s -> wf_op o -> B + att o < two128 ->
   ok_op r s o = true -> Kr r (fst (step s o)).
 Proof.
@@ -223,7 +227,7 @@ Proof.
     + unfold openmax, sbal. cbn [set_mem set_store mem store budgets] in *. rewrite alookup_aset in L |- *.
       destruct (x =? a) eqn:E.
       * apply N.eqb_eq in E; subst x. injection L as <-. cbn [mbal]. specialize (K a ea La).
-        unfold openmax, sbal in K. destruct r; lia.
+        unfold openmax, sbal in K. kr r.
       * specialize (K x e L). unfold openmax, sbal in K. exact K.
     + unfold openmax, sbal. cbn [set_store mem store budgets] in *. rewrite alookup_aset.
       destruct (x =? a) eqn:E; [apply N.eqb_eq in E; subst x; congruence|].
@@ -241,8 +245,8 @@ Proof.
         destruct (@cone_open {| bacct := a; bmax := amt; busage := uzero; bdone := false |} eq_refl) as [_ E2].
         cbn [bacct bmax] in E2. rewrite E2.
         destruct He0 as [He0|[He0 ->]].
-        + specialize (K a e0 He0). unfold openmax, sbal in K. destruct r; lia.
-        + rewrite He0 in M. cbn [mbal] in *. rewrite (count0_max0 _ _ M). unfold sbal in *. destruct r; lia.
+        + specialize (K a e0 He0). unfold openmax, sbal in K. kr r.
+        + rewrite He0 in M. cbn [mbal] in *. rewrite (count0_max0 _ _ M). unfold sbal in *. kr r.
       - apply N.eqb_neq in E.
         destruct (@cone_other {| bacct := a; bmax := amt; busage := uzero; bdone := false |} x E) as [_ E2].
         rewrite E2, N.add_0_r. exact (K x e L). }
@@ -255,13 +259,15 @@ Proof.
     unfold finish, bind. destruct (uadd (busage bd) u) as [nu| |]; try exact K.
     destruct (utotal nu) as [sp| |]; try exact K. destruct (bmax bd <? sp); [exact K|]. cbn [fst].
     intros x e L. cbn [set_budgets mem] in L.
-    rewrite (@openmax_same s _ b bd (with_usage bd nu) x Hn eq_refl eq_refl eq_refl eq_refl). exact (K x e L).
+    match goal with |- context [openmax ?S x] =>
+      rewrite (@openmax_same s S b bd (with_usage bd nu) x Hn eq_refl eq_refl eq_refl eq_refl) end. exact (K x e L).
   - (* Refund *)
     cbn [step]. destruct (nth_error (budgets s) b) as [bd|] eqn:Hn; [|exact K].
     destruct (bdone bd); [exact K|].
     unfold finish, bind. destruct (usub (busage bd) u) as [nu| |]; try exact K. cbn [fst].
     intros x e L. cbn [set_budgets mem] in L.
-    rewrite (@openmax_same s _ b bd (with_usage bd nu) x Hn eq_refl eq_refl eq_refl eq_refl). exact (K x e L).
+    match goal with |- context [openmax ?S x] =>
+      rewrite (@openmax_same s S b bd (with_usage bd nu) x Hn eq_refl eq_refl eq_refl eq_refl) end. exact (K x e L).
   - (* Commit *)
     destruct (nth_error (budgets s) b) as [bd|] eqn:Hn; [|cbn [step]; rewrite Hn; exact K].
     destruct (bdone bd) eqn:Hd; [cbn [step]; rewrite Hn, Hd; exact K|].
@@ -270,14 +276,17 @@ Proof.
     destruct (commit_spec b I HB Hn Hd He0) as [Ht [[E _]|(Hnn&Hle&Hs&_&Hst&Hbu&Hma&Hmo)]]; [rewrite E; exact K|].
     intros x e L.
     pose proof (@openmax_close s _ b bd (mark_committed bd) x Hn Hd eq_refl Hbu) as Hom.
-    unfold sbal at 1. rewrite Hst, alookup_aset.
+    assert (Hsb : sbal (fst (step s (Commit b true))) x =
+                  if x =? bacct bd then sbal s (bacct bd) - usum (busage bd) else sbal s x).
+    { unfold sbal at 1. rewrite Hst, alookup_aset. destruct (x =? bacct bd); reflexivity. }
+    rewrite Hsb. clear Hsb.
     destruct (x =? bacct bd) eqn:E.
     + apply N.eqb_eq in E; subst x. rewrite Hma in L.
       destruct (opencount s (bacct bd) =? 1); [discriminate|]. injection L as <-. cbn [mbal].
       specialize (K _ _ He0).
       pose proof (open_counted _ _ Hn Hd) as [_ Hmx]. fold (openmax s (bacct bd)) in Hmx.
-      destruct r; lia.
-    + apply N.eqb_neq in E. rewrite (Hmo x E) in L. specialize (K x e L). fold (sbal s x).
+      destruct r; cbn beta iota in *; clear - K Hom Hmx Ht Hle; lia.
+    + apply N.eqb_neq in E. rewrite (Hmo x E) in L. specialize (K x e L).
       rewrite N.add_0_r in Hom. rewrite Hom. exact K.
   - (* Rollback *)
     destruct (nth_error (budgets s) b) as [bd|] eqn:Hn; [|cbn [step]; rewrite Hn; exact K].
@@ -286,11 +295,12 @@ Proof.
     destruct (rollback_spec b I HB Hn Hd He0) as (Hs&_&Hst&Hbu&Hma&Hmo).
     intros x e L.
     pose proof (@openmax_close s _ b bd (mark_done bd) x Hn Hd eq_refl Hbu) as Hom.
-    unfold sbal at 1. rewrite Hst. fold (sbal s x).
+    assert (Hsb : sbal (fst (step s (Rollback b))) x = sbal s x) by (unfold sbal; rewrite Hst; reflexivity).
+    rewrite Hsb. clear Hsb.
     destruct (x =? bacct bd) eqn:E.
     + apply N.eqb_eq in E; subst x. rewrite Hma in L.
       destruct (opencount s (bacct bd) =? 1); [discriminate|]. injection L as <-. cbn [mbal].
-      specialize (K _ _ He0). destruct r; lia.
+      specialize (K _ _ He0). destruct r; cbn beta iota in *; clear - K Hom; lia.
     + apply N.eqb_neq in E. rewrite (Hmo x E) in L. specialize (K x e L).
       rewrite N.add_0_r in Hom. rewrite Hom. exact K.
   - (* R4Credit *)
@@ -301,8 +311,8 @@ Proof.
     rewrite E. rewrite stat_add_ok by (rewrite (inv_metric I); lia). cbn [fst].
     intros x e L. cbn [set_store mem] in L. specialize (K x e L).
     unfold openmax. rewrite sbal_getv. cbn [set_store store budgets]. rewrite H3. fold (openmax s x).
-    rewrite <- sbal_getv. cbn [ok_op] in OK. destruct r.
-    + rewrite (cached0_amt _ _ OK L). lia.
+    rewrite <- sbal_getv. cbn [ok_op] in OK. destruct r; cbn beta iota in *.
+    + rewrite (@cached0_amt s deps x e OK L). lia.
     + lia.
   - (* R4Debit *)
     cbn [ok_op] in OK. unfold cached0 in OK. cbn [fst snd] in OK.
@@ -316,7 +326,7 @@ Proof.
     rewrite (@sbal_aset s _ _ _ a (bal - amt) x eq_refl).
     destruct (x =? a) eqn:E; [|exact K].
     apply N.eqb_eq in E; subst x. rewrite L in OK.
-    assert (sbal s a = bal) by (unfold sbal; rewrite L0; reflexivity). destruct r; lia.
+    assert (sbal s a = bal) by (unfold sbal; rewrite L0; reflexivity). kr r.
 Qed.
 
 Theorem Kr_runs : forall r l B s, Inv B s -> Kr r s -> Forall wf_op l -> B + atts l < two128 ->
@@ -333,167 +343,3 @@ Qed.
 
 Lemma Kr_init : forall r, Kr r init.
 Proof. intros r a e L. discriminate. Qed.
-
-(** * Reservations *)
-(* what Budget checks: the in-memory (or, if none is cached, the persisted) balance *)
-Lemma budget_guard_mem : forall s a amt rok s', step s (NewBudget a amt rok) = (s', ODone) ->
-  amt <= get_balance s a.
-Proof.
-  intros s a amt rok s'. cbn [step]. unfold finish, bind, get_balance.
-  destruct (alookup a (mem s)) as [e|].
-  - destruct (mbal e <? amt) eqn:C; [discriminate | intros _; lia].
-  - destruct rok; [|discriminate]. cbn [mbal]. destruct (sbal s a <? amt) eqn:C; [discriminate | intros _; lia].
-Qed.
-
-(* balance minus all other outstanding reservations covers a granted budget *)
-Lemma budget_guard_state : forall B s a amt rok s', Inv B s -> Kr false s ->
-  step s (NewBudget a amt rok) = (s', ODone) -> amt + openmax s a <= sbal s a.
-Proof.
-  intros B s a amt rok s' I K H. pose proof (budget_guard_mem _ _ _ H) as G. unfold get_balance in G.
-  pose proof (inv_mem I a) as M. unfold mem_ok in M.
-  destruct (alookup a (mem s)) as [e|] eqn:L.
-  - specialize (K a e L). cbn in K. lia.
-  - unfold openmax. rewrite (count0_max0 _ _ M). lia.
-Qed.
-
-Theorem budget_guard_partial : forall l a amt rok, Forall wf_op l -> atts l < two128 ->
-  clean false init l = true ->
-  snd (step (runs init l) (NewBudget a amt rok)) = ODone ->
-  amt + openmax (runs init l) a <= sbal (runs init l) a.
-Proof.
-  intros l a amt rok W HB C H.
-  destruct (@Kr_runs false l 0 init Inv_init (Kr_init false) W ltac:(lia) C) as [K I].
-  destruct (step (runs init l) (NewBudget a amt rok)) as [s' ob] eqn:E. cbn [snd] in H. subst ob.
-  exact (budget_guard_state _ _ _ I K E).
-Qed.
-
-Definition witness_b : list op := [R4Credit [(0, 10)] 10 true; NewBudget 0 8 true; R4Debit 0 5].
-
-Theorem budget_guard_refuted : exists l a amt rok, Forall wf_op l /\ atts l < two128 /\
-  snd (step (runs init l) (NewBudget a amt rok)) = ODone /\
-  ~ (amt + openmax (runs init l) a <= sbal (runs init l) a).
-Proof.
-  exists witness_b, 0, 2, true. split; [repeat constructor|]. split; [vm_compute; reflexivity|].
-  split; [vm_compute; reflexivity|]. vm_compute. intros H; apply H; reflexivity.
-Qed.
-
-(* an RHP4 debit is covered by the persisted balance ... *)
-Lemma r4debit_guard : forall s a amt s', step s (R4Debit a amt) = (s', ODone) ->
-  amt <= sbal s a /\ sbal s' a = sbal s a - amt.
-Proof.
-  intros s a amt s'. cbn [step]. unfold finish, bind, store_r4debit, bind, sbal.
-  destruct (alookup a (store s)) as [bal|] eqn:L; [|discriminate].
-  destruct (bal <? amt) eqn:C; [discriminate|].
-  destruct (stat_sub (mBalance s) amt); try discriminate.
-  intros H; injection H as <-. cbn [set_store store]. rewrite alookup_aset_same. lia.
-Qed.
-
-(* ... and by balance minus open RHP3 reservations when the manager holds none for the account *)
-Lemma r4debit_guard_partial : forall B s a amt s', Inv B s -> alookup a (mem s) = None ->
-  step s (R4Debit a amt) = (s', ODone) -> amt + openmax s a <= sbal s a.
-Proof.
-  intros B s a amt s' I L H. destruct (r4debit_guard _ _ H) as [G _].
-  pose proof (inv_mem I a) as M. unfold mem_ok in M. rewrite L in M.
-  unfold openmax. rewrite (count0_max0 _ _ M). lia.
-Qed.
-
-Theorem r4debit_guard_refuted : exists l a amt, Forall wf_op l /\ atts l < two128 /\
-  snd (step (runs init l) (R4Debit a amt)) = ODone /\
-  ~ (amt + openmax (runs init l) a <= sbal (runs init l) a).
-Proof.
-  exists [R4Credit [(0, 10)] 10 true; NewBudget 0 8 true], 0, 5.
-  split; [repeat constructor|]. split; [vm_compute; reflexivity|].
-  split; [vm_compute; reflexivity|]. vm_compute. intros H; apply H; reflexivity.
-Qed.
-
-(** * Commit / Rollback / failures *)
-Lemma failed_commit_unchanged : forall s b sok s' e, step s (Commit b sok) = (s', OErr e) -> s' = s.
-Proof.
-  intros s b sok s' e. cbn [step]. destruct (nth_error (budgets s) b) as [bd|]; [|intros H; injection H; auto].
-  destruct (bdone bd); [discriminate|]. destruct sok; cbn [negb]; [|intros H; injection H; auto].
-  destruct (store_debit s (bacct bd) (busage bd)) as [s1| |]; [|intros H; injection H; auto|discriminate].
-  destruct (do spent <- utotal (busage bd); csub (bmax bd) spent); try discriminate.
-  unfold release. destruct (alookup (bacct bd) _); [|discriminate].
-  destruct (_ <=? _)%Z; [discriminate|]. destruct (cadd _ _); discriminate.
-Qed.
-
-Lemma failed_budget_unchanged : forall s a amt rok s' e, step s (NewBudget a amt rok) = (s', OErr e) -> s' = s.
-Proof.
-  intros s a amt rok s' e. cbn [step]. unfold finish, bind.
-  destruct (alookup a (mem s)) as [e0|].
-  - destruct (mbal e0 <? amt); [intros H; injection H; auto | discriminate].
-  - destruct rok; [|intros H; injection H; auto]. cbn [mbal].
-    destruct (sbal s a <? amt); [intros H; injection H; auto | discriminate].
-Qed.
-
-Lemma failed_r4debit_unchanged : forall s a amt s' e, step s (R4Debit a amt) = (s', OErr e) -> s' = s.
-Proof.
-  intros s a amt s' e. cbn [step]. unfold finish. destruct (do s0 <- store_r4debit s a amt; Ok (s0, ODone)) as [[? ?]| |] eqn:E.
-  - unfold bind in E. destruct (store_r4debit s a amt); try discriminate. injection E as <- <-. discriminate.
-  - intros H; injection H; auto.
-  - discriminate.
-Qed.
-
-Lemma failed_credit_unchanged : forall s a amt rf ex cok s' e, step s (Credit a amt rf ex cok) = (s', OErr e) -> s' = s.
-Proof.
-  intros s a amt rf ex cok s' e. cbn [step]. destruct ex; [intros H; injection H; auto|].
-  unfold finish. match goal with |- (match ?R with _ => _ end) = _ -> _ => destruct R as [[? ?]| |] eqn:E end.
-  - unfold bind in E. destruct (cadd _ _); try discriminate. destruct (_ && _); try discriminate.
-    destruct (store_credit _ _ _ _); try discriminate. injection E as <- <-. discriminate.
-  - intros H; injection H; auto.
-  - discriminate.
-Qed.
-
-(* no double spend: a committed or rolled-back budget can be committed/rolled back again without effect *)
-Lemma done_budget_inert : forall s b bd sok, nth_error (budgets s) b = Some bd -> bdone bd = true ->
-  step s (Commit b sok) = (s, ODone) /\ step s (Rollback b) = (s, ODone).
-Proof. intros s b bd sok Hn Hd. cbn [step]. rewrite Hn, Hd. split; reflexivity. Qed.
-
-(* once done, always done: budgets are only ever closed *)
-Lemma done_stays_done : forall s o b bd, nth_error (budgets s) b = Some bd -> bdone bd = true ->
-  exists bd', nth_error (budgets (fst (step s o))) b = Some bd' /\ bdone bd' = true.
-Proof.
-  intros s o b bd Hn Hd.
-  assert (Hsame : exists bd', nth_error (budgets s) b = Some bd' /\ bdone bd' = true) by eauto.
-  assert (Hupd : forall b0 x, (forall y, nth_error (budgets s) b0 = Some y -> bdone y = true -> bdone x = true) ->
-             exists bd', nth_error (upd_nth b0 x (budgets s)) b = Some bd' /\ bdone bd' = true).
-  { intros b0 x Hx. rewrite nth_error_upd. destruct (Nat.eqb b b0) eqn:E; [|eauto].
-    apply PeanoNat.Nat.eqb_eq in E; subst b0. rewrite Hn. eexists; split; [reflexivity | exact (Hx _ Hn Hd)]. }
-  assert (Hrel : forall s1 a back, budgets (fst (release s1 a back)) = budgets s1).
-  { intros. unfold release. destruct (alookup a (mem s1)); [|reflexivity].
-    destruct (_ <=? _)%Z; [reflexivity|]. destruct (cadd _ _); reflexivity. }
-  destruct o; cbn [step]; try exact Hsame.
-  - destruct expired; [exact Hsame|]. unfold finish, bind. destruct (cadd _ _); try exact Hsame.
-    destruct (_ && _); try exact Hsame. destruct (store_credit s a amt cok) as [s1| |] eqn:E; try exact Hsame.
-    assert (budgets s1 = budgets s).
-    { unfold store_credit, bind in E. destruct (cadd _ _); try discriminate. destruct (stat_add _ _); try discriminate.
-      destruct cok; try discriminate. injection E as <-. reflexivity. }
-    cbn [fst]. destruct (alookup a (mem s1)); cbn [set_mem budgets]; rewrite H; exact Hsame.
-  - unfold finish, bind. destruct (match alookup a (mem s) with Some e => _ | None => _ end) as [e| |]; try exact Hsame.
-    destruct (mbal e <? amt); [exact Hsame|]. cbn [fst set_budgets budgets].
-    exists bd. split; [|exact Hd]. rewrite nth_error_app1_l; [exact Hn|]. apply nth_error_Some. congruence.
-  - destruct (nth_error (budgets s) b0) as [x|] eqn:Hx; [|exact Hsame].
-    unfold finish, bind. destruct (uadd _ _); try exact Hsame. destruct (utotal _); try exact Hsame.
-    destruct (_ <? _); [exact Hsame|]. cbn [fst set_budgets budgets]. apply Hupd.
-    intros y Hy Hyd. rewrite Hx in Hy. injection Hy as <-. exact Hyd.
-  - destruct (nth_error (budgets s) b0) as [x|] eqn:Hx; [|exact Hsame].
-    destruct (bdone x) eqn:Hxd; [exact Hsame|].
-    unfold finish, bind. destruct (usub _ _); try exact Hsame. cbn [fst set_budgets budgets]. apply Hupd.
-    intros y Hy Hyd. rewrite Hx in Hy. injection Hy as <-. exact Hyd.
-  - destruct (nth_error (budgets s) b0) as [x|] eqn:Hx; [|exact Hsame].
-    destruct (bdone x) eqn:Hxd; [exact Hsame|]. destruct sok; cbn [negb]; [|exact Hsame].
-    destruct (store_debit s (bacct x) (busage x)) as [s1| |] eqn:E; try exact Hsame.
-    assert (budgets s1 = budgets s).
-    { unfold store_debit, bind in E. destruct (utotal _); try discriminate. destruct (alookup _ _); try discriminate.
-      destruct (_ <? _); try discriminate. destruct (csub _ _); try discriminate. destruct (stat_sub _ _); try discriminate.
-      injection E as <-. reflexivity. }
-    destruct (do spent <- utotal (busage x); csub (bmax x) spent); cbn [fst]; try (rewrite H; exact Hsame).
-    rewrite Hrel. cbn [set_budgets budgets]. rewrite H. apply Hupd. intros; reflexivity.
-  - destruct (nth_error (budgets s) b0) as [x|] eqn:Hx; [|exact Hsame].
-    destruct (bdone x) eqn:Hxd; [exact Hsame|]. destruct (alookup (bacct x) (mem s)); [|exact Hsame].
-    rewrite Hrel. cbn [set_budgets budgets]. apply Hupd. intros; reflexivity.
-  - unfold finish, bind, store_r4credit, bind. destruct (negb cok); [exact Hsame|].
-    destruct (r4_deposits _ _ _ _) as [[[? ?] ?]| |]; try exact Hsame. destruct (stat_add _ _); exact Hsame.
-  - unfold finish, bind, store_r4debit, bind. destruct (alookup _ _); [|exact Hsame].
-    destruct (_ <? _); [exact Hsame|]. destruct (stat_sub _ _); exact Hsame.
-Qed.
